@@ -127,7 +127,10 @@ def obligation(o, tier, seed):
         scen = ("dim 2\nadd 0 0.0,0.0\nadd 1 1.0,0.0\nadd 2 2.0,0.0\nadd 3 3.0,0.0\nadd 4 4.0,0.0\n"
                 "build n_trees=2 seed=0\nexpect_valid\n"
                 "query count=9223372036854775808 search_k=100 vec=0.0,0.0 expect_len=5\n"
-                "query count=9223372036854775808 search_k=none vec=0.0,0.0 expect_len=5\n")
+                "query count=9223372036854775808 search_k=none vec=0.0,0.0 expect_len=5\n"
+                "=== unset budget equals the explicit one\ndim 2\n" +
+                "".join(f"add {i} {float(i)},{float(i % 3)}\n" for i in range(64)) +
+                "build n_trees=2 split_after=2 seed=0\nbudget_equiv count=1 oversampling=64 queries=16\n")
         nat = native.run_scenario(scen, profile=profile)
         rp = e2.save_replay(o["props"][0], oid, {"property": o["props"][0], "obligation": oid, "engine": "mirsym",
                                                  "statement": o["what"], "counterexample": v, "scenario": scen,
